@@ -25,6 +25,7 @@ EXPLANATION = (
     "the same SchemaErrorReason / effect under the same conditions on schema attributes, with pd.isna(x) == "
     "`x is None` == missing(x). (R5) neither backend's uniqueness check filters or masks nulls (duplicated()/is_duplicated() both count repeated nulls); (R6) both containers decide `declares a default` by `default is (not) None`, never by truthiness. " 
     " (R7) polars ColumnBackend.set_default applies fill_null on every path (reaching-definition walk; fill_nan alone leaves the nulls of a float column); (R8) both add_missing_columns compute the final column selection from the frame's own columns as well as the schema's (undeclared columns are kept unless strict says otherwise). " 
+    " (R9) a declared default reaches a polars expression context (with_columns / fill_null / fill_nan) only as pl.lit(default) or under an isinstance(default, pl.Expr) test - a bare str there is a column reference. " 
     "NOT decided: equality of failing cells and parsed outputs on data; numeric/regex "
     "dialect differences between python re/numpy and rust."
 )
